@@ -185,8 +185,14 @@ class LexSession:
                 else:
                     diff = a != b
                 per_field[fname].append(zand(live, n_i == n_r, diff))
+        nsym = sum(1 for b in run['template'] if b is SYM)
         for fname in fields:
-            qs.append(('token-' + fname, zor(*per_field[fname])))
+            if nsym >= 6:
+                # one query per token slot: the same disjunction, decided piecewise (and faster)
+                for k, d in enumerate(per_field[fname]):
+                    qs.append(('token-%s[%d]' % (fname, k), d))
+            else:
+                qs.append(('token-' + fname, zor(*per_field[fname])))
         # error lists
         ev = impl['err']
         ne_i = ev.f['len']
@@ -218,7 +224,7 @@ class LexSession:
         return qs
 
     # ------------------------------------------------------------------ solving
-    def solve(self, run, name, formula, timeout_s=600):
+    def solve(self, run, name, formula, timeout_s=1800):
         s = z3.Solver()
         s.set('timeout', timeout_s * 1000)
         s.add(run['pre'])
@@ -521,6 +527,7 @@ def _process_entry(args):
 
 def _wanted(want_names, qn):
     exact, prefixes = want_names
+    qn = re.sub(r'\[\d+\]$', '', qn)
     return qn in exact or any(qn.startswith(p) for p in prefixes)
 
 
